@@ -1,7 +1,7 @@
     use crate::verif_spec as spec;
     use crate::app::parse::range::verif_kani_c09_range::{any_range, range_of};
 
-    // @harness ids=C09,C01 tier=quick kind=proof units=app::parse::bit::BitSequence::parse,app::parse::bit::DoubleBitSequence::parse timeout=300 note="packed single-bit / double-bit objects, 8192 bytes available, every range (0..=65536 objects): consume exactly ceil(count/8) resp. ceil(count/4) bytes and keep exactly those, or fail without consuming"
+    // @harness ids=C09,C01 tier=thorough kind=proof units=app::parse::bit::BitSequence::parse,app::parse::bit::DoubleBitSequence::parse timeout=300 note="packed single-bit / double-bit objects, 8192 bytes available, every range (0..=65536 objects): consume exactly ceil(count/8) resp. ceil(count/4) bytes and keep exactly those, or fail without consuming"
     #[kani::proof]
     fn vk_c09_bit_sequences_parse() {
         const L: usize = 8193;
@@ -199,7 +199,7 @@
         bit_iter_step(&PATTERN[..8192], 65536, pattern_byte);
     }
 
-    // @harness ids=C09,C01 tier=quick kind=bounded bound="count <= 512 objects (64 fully symbolic bytes); start index full u16 domain incl. ranges ending at 65535" units=app::parse::bit::BitIterator::next timeout=300 note="same inductive step with every byte value: the bit delivered is bit pos%8 of byte pos/8"
+    // @harness ids=C09,C01 tier=thorough kind=bounded bound="count <= 512 objects (64 fully symbolic bytes); start index full u16 domain incl. ranges ending at 65535" units=app::parse::bit::BitIterator::next timeout=300 note="same inductive step with every byte value: the bit delivered is bit pos%8 of byte pos/8"
     #[kani::proof]
     fn vk_c09_bit_iter_inductive_symbolic_bytes() {
         let arr: [u8; 64] = kani::any();
